@@ -21,6 +21,7 @@ RULE = (
     "2 positions, x {X/Y, lon/lat} x {header, names} x {mult column or not} x {discrete, continuous f=1, f=2 steps} x {forward, reversed}; "
     "non-trivial = at least one row inside and one row outside the window, or >= 2 release steps; lattice points distinct by construction"
 )
+RULE += " Beyond the lattice (chosen scenarios, not enumerated): tables of 65 000 rows and 3300 continuous ticks; release_time of the new particles."
 ASSUMPTIONS = ["release times on the model time grid (and on the tick grid in continuous mode)", "fake affine grid for lon/lat conversion"]
 
 S0 = world.tosec("2020-01-01T00:00:00")
